@@ -60,6 +60,9 @@ type schedObs struct {
 }
 
 type taskEnv struct {
+	arena      []byte // when non-nil: inputs[i] are adjacent sub-slices of it (capacity NOT clipped)
+	arenaWant  []byte
+	inputs     [][]byte
 	docs       [][]byte
 	shared     []*commonmark.RootBlock
 	sharedRefs commonmark.ReferenceMap
@@ -70,15 +73,21 @@ type taskEnv struct {
 // observable result as a string.  Every call builds fresh per-run state.
 func taskBody(env *taskEnv, t *TaskScn) func() string {
 	doc := env.docs[t.Doc%len(env.docs)]
+	input := func() []byte {
+		if env.arena != nil {
+			return env.inputs[t.Doc%len(env.docs)]
+		}
+		return append([]byte(nil), doc...)
+	}
 	switch t.Kind {
 	case "parse":
 		return func() string {
-			blocks, refs := commonmark.Parse(append([]byte(nil), doc...))
+			blocks, refs := commonmark.Parse(input())
 			return snapAll(blocks) + "REFS\n" + snapRefs(refs)
 		}
 	case "parse-render":
 		return func() string {
-			blocks, refs := commonmark.Parse(append([]byte(nil), doc...))
+			blocks, refs := commonmark.Parse(input())
 			sw, w := newSimWriter(nil)
 			err := makeRenderer(t.Render, refs).Render(w, blocks)
 			return snapAll(blocks) + fmt.Sprintf("HTML err=%v\n%s", err, sw.Buf)
@@ -155,6 +164,20 @@ func buildTaskEnv(s *Scenario) (*taskEnv, bool) {
 		rs = &RenderScn{Filter: "nil"}
 	}
 	env.sharedR = makeRenderer(rs, env.sharedRefs)
+	if s.Arena {
+		// one backing array holding every document back to back; a task's input
+		// is a plain sub-slice, so its spare capacity IS the next document
+		for _, d := range env.docs {
+			env.arena = append(env.arena, d...)
+		}
+		env.arena = append(env.arena, "\n\nTAIL-SENTINEL\n"...)
+		env.arenaWant = append([]byte(nil), env.arena...)
+		off := 0
+		for _, d := range env.docs {
+			env.inputs = append(env.inputs, env.arena[off:off+len(d)])
+			off += len(d)
+		}
+	}
 	return env, true
 }
 
@@ -208,6 +231,7 @@ func checkC19(s *Scenario) (*Failure, *schedObs) {
 	obs.TaskSteps = res.TaskSteps
 	report := theRaceLog.take()
 	sharedAfter := snapAll(env.shared)
+	arenaTouched := env.arena != nil && string(env.arena) != string(env.arenaWant)
 
 	env1, ok1 := buildTaskEnv(s)
 	env2, ok2 := buildTaskEnv(s)
@@ -247,6 +271,9 @@ func checkC19(s *Scenario) (*Failure, *schedObs) {
 	}
 	if sharedAfter != sharedBefore {
 		fails = append(fails, &Failure{Check: "shared-tree-touched", Observed: firstDiff(sharedBefore, sharedAfter)})
+	}
+	if arenaTouched {
+		fails = append(fails, &Failure{Check: "input-mutated", Observed: "Parse wrote into its caller's backing array (a neighbouring document): " + firstDiff(string(env.arenaWant), string(env.arena))})
 	}
 	if len(fails) == 0 {
 		return nil, obs
